@@ -12,7 +12,7 @@ from .accessors import COORD_OPS, OPS
 from .common import Driver
 
 THEOREM_MODULES = ["PygacModel.Theorems.C12"]
-RULE = ("random accessor histories (quick: length <= 10, thorough <= 40) over thirteen reader configurations (POD GAC/LAC with "
+RULE = ("random accessor histories (quick: length <= 10, thorough <= 40) over fourteen reader configurations (POD GAC/LAC with "
         "clock drift applying, incl. a pass whose first line is within the clock error after UTC midnight and one with "
         "gaps, and two NOAA-14 passes whose first/last line lies within the clock error of a scan-motor interval end "
         "(noisy pixels planted); POD with stale TLE / correction disabled / spacecraft without table; KLM GAC/LAC, tie-point-only "
